@@ -230,6 +230,13 @@ def step (d : DS) (toks : List String) : DS × String :=
     let (d, lay) := withLayout d
     let sy (ci : CIndex.St) : CIndex.St := (RangedIter.syncChunks { cks := lay.1, cidx := ci, tss := lay.2.1 }).cidx
     ({ d with rcidx := sy d.rcidx, rcidx2 := sy d.rcidx2, rcidx3 := sy d.rcidx3, rcidx4 := sy d.rcidx4 }, "ok")
+  | ["rw.failsync"] =>
+    -- one `SyncChunks` whose `lightFill` cannot read any record (I/O error, cancelled context): an unknown chunk gets the
+    -- entry of an empty chunk — hull [MaxInt64, 0], Recs = 0 — and, being known from then on, is never filled again
+    let (d, lay) := withLayout d
+    let sy (ci : CIndex.St) : CIndex.St :=
+      (RangedIter.syncChunks { cks := lay.1.map (fun k => { k with cnt := 0 }), cidx := ci, tss := lay.2.1 }).cidx
+    ({ d with rcidx := sy d.rcidx, rcidx2 := sy d.rcidx2, rcidx3 := sy d.rcidx3, rcidx4 := sy d.rcidx4 }, "ok")
   | ["rw.heal"] =>
     -- `RebuildIndex(force = false)` for every chunk: those without a usable tree are rebuilt
     let (d, lay) := withLayout d
